@@ -111,6 +111,7 @@ Definition E_IllegalRecord : N := 6.
 Definition E_IllegalCname : N := 7.
 Definition E_MultipleCnames : N := 8.
 Definition E_ZoneErrors : N := 9.
+Definition E_SoaMismatch : N := 10.
 
 Definition b_node (p : name) (f : node -> node) (z : node) : node := with_path (fun c => c) p f z.
 
@@ -327,6 +328,12 @@ Definition u_del (p : name) (t : rtype) (ttl : N) (d : rdata) (z : node) : node 
   | _ => w_update_rrset p (mkRrset t ttl keep) z1
   end.
 
+(* check_soa_serial: the first record of the working copy's SOA RRset must have
+   the serial of the given SOA record (record data is a token; for SOA records the
+   token is the serial); no SOA in the zone is a mismatch *)
+Definition soa_serial_matches (d : rdata) (z : node) : bool :=
+  match get_soa z with Some s => rd_tok (rr_data s) =? rd_tok d | None => false end.
+
 Definition u_soa (ttl : N) (d : rdata) (z : node) : node := w_update_rrset [] (mkRrset soa_type ttl [d]) z.
 
 (* ------------------------------------------------------------------ parsed::Zonefile *)
@@ -437,7 +444,7 @@ Definition build (rs : list grec) : node := fst (zf_build (zf_of_records rs)).
 Inductive op :=
 | OBRr (p : name) (r : rrset) | OBCut (c : zcut) | OBCname (p : name) (c : rr)
 | OZRec (g : grec)
-| OUNew | OUAdd (g : grec) | OUDel (g : grec) | OUDelAll | OUBatchDel | OUBatchAdd (ttl : N) (d : rdata) | OUFin (ttl : N) (d : rdata) | OUDrop
+| OUNew | OUAdd (g : grec) | OUDel (g : grec) | OUDelAll | OUBatchDel (d : rdata) | OUBatchAdd (ttl : N) (d : rdata) | OUFin (ttl : N) (d : rdata) | OUDrop
 | OWOpen | OWRr (p : name) (r : rrset) | OWRm (p : name) (t : rtype) | OWCut (p : name) (c : zcut) | OWCname (p : name) (c : rr)
 | OWRegular (p : name) | OWRemoveAll (p : name) | OWCommit | OWDrop.
 
@@ -500,7 +507,14 @@ Definition step (i : N) (s0 : state) (o : op) : state :=
   | OUAdd g => if s_fin s then add_err i E_Finished s else on_work (u_add (g_owner g) (g_type g) (g_ttl g) (g_data g)) s
   | OUDel g => if s_fin s then add_err i E_Finished s else on_work (u_del (g_owner g) (g_type g) (g_ttl g) (g_data g)) s
   | OUDelAll => if s_fin s then add_err i E_Finished s else on_work (w_remove_all []) s
-  | OUBatchDel => if s_fin s then add_err i E_Finished s else commit true s
+  | OUBatchDel d =>
+      (* check_soa_serial against the SOA of the working copy, before the commit *)
+      if s_fin s then add_err i E_Finished s else
+      match s_work s with
+      | Some w => if (if batch_delete_checks_serial then soa_serial_matches d w else true) then commit true s
+                  else add_err i E_SoaMismatch s
+      | None => s
+      end
   | OUBatchAdd ttl d => if s_fin s then add_err i E_Finished s else on_work (u_soa ttl d) s
   | OUFin ttl d => if s_fin s then add_err i E_Finished s else set_fin true (commit false (on_work (u_soa ttl d) s))
   | OUDrop => set_fin false (rollback s)
